@@ -191,7 +191,7 @@ def api_recv(checks=None, nmax=12, only=None):
 def hs_dispatch(checks=None, n=32, only=None):
     """parseSSLHandshake with DTLS / TLS reassembly over parser stubs.
     quick: small variant (16-byte DTLS record, 8-byte reassembly buffer, one
-    stored fragment; 8-byte TLS record; 24-byte heap blocks); thorough: 20 / 12
+    stored fragment; 12-byte TLS record; 24-byte heap blocks); thorough: 20 / 12
     byte records, 16-byte reassembly buffer, two stored fragments"""
     def loops(dtls, nrec, slot, nfr):
         f = "parseSSLHandshake"
@@ -217,10 +217,10 @@ def hs_dispatch(checks=None, n=32, only=None):
         termination_loops=["dtlsHsHashFragMsg"], native_timeout_s=20, cap_s=1800,
         assumptions=[
             "hs_dispatch: the per-message parsers of hsDecode.c are contract stubs (cursor anywhere in [c, end], any documented status, arbitrary next hsState); handshake-hash functions are stubs that read both ends of the range they are given; sslResetContext is a no-op",
-            "hs_dispatch: RI-frag (proved preserved by the step): a DTLS reassembly in progress has fragMessage of fragLenStored bytes (8 quick / 16 thorough), 1 (quick) or 1..2 (thorough) stored fragments that are non-empty, inside the buffer, pairwise disjoint, listed without holes, fragTotal = sum < fragLenStored; TLS: fragIndex < fragTotal = size of fragMessage; session-ticket pointer/length agree; record of 1..16 / 8 (quick) or 1..20 / 12 (thorough) decrypted bytes; heap blocks <= 24 / 48 bytes",
+            "hs_dispatch: RI-frag (proved preserved by the step): a DTLS reassembly in progress has fragMessage of fragLenStored bytes (8 quick / 16 thorough), 1 (quick) or 1..2 (thorough) stored fragments that are non-empty, inside the buffer, pairwise disjoint, listed without holes, fragTotal = sum < fragLenStored; TLS: fragIndex < fragTotal = size of fragMessage; session-ticket pointer/length agree; record of 1..16 / 12 (quick) or 1..20 / 12 (thorough) decrypted bytes; heap blocks <= 24 / 48 bytes",
         ],
         unwind=20,
-        cases=[case("dtls12", "quick", 1, 16, 8, 1, 24), case("tls12", "quick", 0, 8, 8, 1, 24),
+        cases=[case("dtls12", "quick", 1, 16, 8, 1, 24), case("tls12", "quick", 0, 12, 8, 1, 24),
                case("dtls12_large", "thorough", 1, 20, 16, 2, 48), case("tls12_large", "thorough", 0, 12, 16, 2, 48)],
     )
     if only:
